@@ -29,8 +29,28 @@ SampledCorruptions(b, c, a) ==
   ELSE LET S == Corruptions(b, c) q == SetToSeq(S) n == Len(q)
        IN  {q[1 + ((Seed * 31 + Len(b.ins) * 7 + Len(b.outs) * 13 + Len(b.kerns) * 17 + i * 104729) % n)] : i \in 1..PairK}
 
+\* ---- realisations: the representations / weightings a case may be run under, with the verdict under each.
+\* (co, tx) resp. (co, block) is the base run; `must` marks the runs that show something the base run cannot
+\* (an input whose claimed features only exist in the FeaturesAndCommit representation; a body at / just over the
+\* weight bound of AsLimitedTransaction); of the others the driver runs one for some cases, rotating.
+ClaimsFeatures(b) == \E i \in 1..Len(b.ins) : "f" \in DOMAIN b.ins[i]
+Realisations ==
+  IF ctx.as = "tx"
+  THEN LET rv == RestValid(body, ctx)
+       IN  [k \in 1..6 |->
+             LET iv == IF k <= 3 THEN "co" ELSE "fc"
+                 w  == <<"tx", "limited", "nolimit">>[1 + ((k - 1) % 3)]
+             IN  [iv |-> iv, w |-> w, valid |-> RuleWeight(body, TxWeightBound(w)) /\ rv, rule |-> FirstFailingW(body, ctx, w),
+                  must |-> \/ k = 1
+                           \/ iv = "fc" /\ ClaimsFeatures(body)
+                           \* the weight rule at its boundary: a body exactly at the bound of AsLimitedTransaction, and one unit over
+                           \/ iv = "co" /\ w = "limited" /\ Weight(body) \in {TxWeightBound(w), TxWeightBound(w) + 1}]]
+  ELSE LET v == Valid(body, ctx) ff == FirstFailing(body, ctx)
+       IN  [k \in 1..2 |-> [iv |-> <<"co", "fc">>[k], w |-> "block", valid |-> v, rule |-> ff,
+                            must |-> (k = 1) \/ ClaimsFeatures(body)]]
 Case == [grp |-> grp, body |-> body, ctx |-> ctx, applied |-> applied,
-         expect |-> [valid |-> Valid(body, ctx), rule |-> FirstFailing(body, ctx),
-                     nvc |-> NoValueCreated(body, ctx), degenerate |-> Degenerate(body, ctx)]]
+         expect |-> [valid |-> Valid(body, ctx), rule |-> FirstFailing(body, ctx), rest_valid |-> RestValid(body, ctx),
+                     nvc |-> NoValueCreated(body, ctx), degenerate |-> Degenerate(body, ctx)],
+         runs |-> Realisations]
 Emit == HasBody => PrintT(<<"TXCASE", ToJson(Case)>>)
 ===========================================================================
